@@ -476,6 +476,31 @@ def make_cases(ctx, rng, cd, witnesses, gdict):
                         i = rng.randrange(min(len(mb), 48)) if rng.random() < 0.7 else rng.randrange(len(mb))
                         mb[i] = mut_byte(rng, mb[i])
                 add("B", bytes(mb), "block-mut", cap=rng.choice([131072 + 64, 1000, 10]))
+    # round 2: call histories of the block-level API on one context.  Empty operations (an empty raw block announced with
+    # ZSTD_insertBlock(dst, 0), an empty compressed block decoded with capacity 0) add nothing to the history: every compressed
+    # block must get the same verdict with and without them (harness anomaly EMPTYOP; an out-of-history read is an ASan trap).
+    CRAFT = bytes.fromhex("000a00000000000000060008")        # 0 literals, 10 sequences, predefined tables, offsets beyond an empty history
+    kprogs = ["d", "i0,d", "z,d", "i0,i0,d", "i7,i0,d", "i7,z,d", "g64,i0,d", "g300,z,d", "i64,g64,i0,d", "d,i0,d", "i0,d,z,d", "i40,d,g9,i0,d"]
+    for prog in kprogs:
+        add("K", CRAFT, "blockapi:" + prog, flags=prog, cap=1000)
+    nk = 0
+    for fr, st, d, x in valid[:(40 if quick else 150)]:
+        if not st or d is not None:
+            continue
+        cb = [(bo, bt, co, cl) for bo, bt, co, cl in st["blocks"] if bt == 2]
+        for bi, (bo, bt, co, cl) in enumerate(cb[:4]):
+            body = fr[co:co + cl]
+            # a later block of a frame reaches into the blocks before it: decoded alone it is (normally) refused; behind a gap + an
+            # empty operation the lost prefix makes it "contiguous" with memory the history never contained
+            for prog in ((rng.sample(kprogs, 3) + ["g%d,i0,d" % rng.choice([1, 8, 100, 70000]), "i%d,g%d,z,d" % (rng.choice([1, 30, 3000]), rng.choice([1, 500]))])
+                         if nk < (60 if quick else 600) else []):
+                mb = bytearray(body)
+                if rng.random() < 0.5 and mb:
+                    for _ in range(rng.choice([1, 2])):
+                        j = rng.randrange(max(0, len(mb) - 12), len(mb)) if rng.random() < 0.6 else rng.randrange(len(mb))
+                        mb[j] = mut_byte(rng, mb[j])
+                add("K", bytes(mb), "blockapi%s:%s" % ("-later" if bi else "", prog), flags=prog, cap=rng.choice([131072 + 64, 140000 + 131072]))
+                nk += 1
     # (4) dictionaries: arbitrary bytes, valid header with hostile tables
     gd, gf = gdict["dict"], gdict["frame"]
     nd = 140 if quick else 1500
@@ -503,6 +528,13 @@ def make_cases(ctx, rng, cd, witnesses, gdict):
     ctx.notes["legacy_frames"] = len(leg)
     for fr in leg:
         add("L", fr, "legacy-valid", cap=4096)
+        # round 2: legacy frames decoded with a dictionary (any bytes, any length: shorter than a magic number, shorter than the
+        # magic + dictID, a legacy dictionary magic followed by nothing / by hostile tables, raw content)
+        lmagic = {0x25: "35a430ec", 0x26: "36a430ec", 0x27: "37a430ec"}.get(fr[0], "37a430ec")      # ZSTDv05/06/07_DICT_MAGIC, little endian
+        for dl in (1, 2, 3, 4, 5, 7, 8, 9, 40):
+            add("L", fr, "legacy-dict:%d" % dl, dict_=rng.randbytes(dl), cap=4096)
+        for tail in (0, 1, 3, 4, 8, 60, 300):
+            add("L", fr, "legacy-dict-magic:%d" % tail, dict_=bytes.fromhex(lmagic) + rng.randbytes(tail), cap=4096)
         for i in range(120 if quick else 1200):
             b = bytearray(fr)
             r = rng.random()
@@ -648,6 +680,61 @@ def replay_of(c, **kw):
 # --------------------------------------------------------------------------------------------------------------
 # evaluation of the fuzz results
 
+def check_continuity(ctx, model_exe, items, variant):
+    """K cases: the bookkeeping state (previousDstEnd, prefixStart, virtualStart, dictEnd) after every call of the history must
+    be the one of the repaired model (Continuity.step_fixed, proved sound for every history); a trace that follows the model
+    of the code as written (Continuity.step) instead is the known defect, anything else a new one."""
+    items = [(c, ops, cs) for c, ops, cs in items if ops not in ("-", "")]
+    if not items:
+        return
+    lines = []
+    for c, ops, cs in items:
+        lines.append("C %s fixed %s" % (c["id"], ops))
+        lines.append("C %s asis %s" % (c["id"], ops))
+    mout = run_model(model_exe, lines)
+    res = {}
+    for l in mout:
+        t = l.split(" ")
+        if len(t) >= 3 and t[0] == "C":
+            res.setdefault(t[1], []).append(t[2])
+    nfix = nasis = 0
+    for c, ops, cs in items:
+        m = res.get(c["id"], [])
+        if len(m) != 2:
+            ctx.violation(replay_of(c, what="continuity", ops=ops, model=str(m)[:200]), what="history bookkeeping model gave no result for %s" % ops[:100])
+            continue
+        ctx.count(("continuity", c["flags"], cs == m[0], cs == m[1]), nontrivial=True)
+        if cs == m[0]:
+            nfix += 1
+            continue
+        if cs == m[1]:
+            nasis += 1
+            ctx.violation(replay_of(c, what="continuity", ops=ops, observed=cs[:400], model_fixed=m[0][:400], variant=variant),
+                          what="block-level API history %s: an empty operation moved previousDstEnd without starting a new segment (state %s, sound bookkeeping %s): "
+                               "the next block can reach memory that never was history" % (c["flags"], cs[:120], m[0][:120]),
+                          key="C03-block-api-empty-insertblock-loses-prefix")
+        else:
+            ctx.violation(replay_of(c, what="continuity", ops=ops, observed=cs[:400], model_fixed=m[0][:400], model_aswritten=m[1][:400], variant=variant),
+                          what="block-level API history %s: bookkeeping state %s follows neither the sound model (%s) nor the model of the code as written (%s)"
+                               % (c["flags"], cs[:120], m[0][:120], m[1][:120]))
+    ctx.notes["continuity_traces"] = dict(total=len(items), sound=nfix, as_written_unsound=nasis)
+
+
+def has_empty_op(prog):
+    return any(t in ("i0", "z") for t in prog.split(","))
+
+
+def crash_key(c, err):
+    """stable key of a round-2 finding a sanitizer trap belongs to (None = a new one)"""
+    if not c:
+        return None
+    if c["cmd"] == "L" and c["dict"] and len(c["dict"]) < 4 and re.search(r"ZSTDv0[56]_decompress_insertDictionary", err):
+        return "C03-legacy-v05v06-short-dict-overread"
+    if c["cmd"] == "K" and has_empty_op(c["flags"]) and "ZSTD_decompressBlock" in err:
+        return "C03-block-api-empty-insertblock-loses-prefix"
+    return None
+
+
 def evaluate(ctx, cd, model_exe, cases, out, crashes, npmax, variant):
     byid = {c["id"]: c for c in cases}
     for line, rc, err in crashes:
@@ -655,7 +742,8 @@ def evaluate(ctx, cd, model_exe, cases, out, crashes, npmax, variant):
         c = byid.get(cid)
         summ = " ".join(re.findall(r"(ERROR: AddressSanitizer[^\n]*|SUMMARY:[^\n]*|runtime error:[^\n]*)", err)[:3]) or err[-300:]
         ctx.violation(dict(kind="fuzz", line=line[:1200000], origin=c["origin"] if c else "?", rc=rc, variant=variant, report=err[-2500:]),
-                      what="decoder harness (%s build) died on a %s input (rc=%d): %s" % (variant, c["origin"] if c else "?", rc, summ[:400]))
+                      what="decoder harness (%s build) died on a %s input (rc=%d): %s" % (variant, c["origin"] if c else "?", rc, summ[:400]),
+                      key=crash_key(c, err))
     # reference decoder on every frame-level case
     fcases = [c for c in cases if c["cmd"] == "F" and c["id"] in out]
     rin = []
@@ -672,7 +760,7 @@ def evaluate(ctx, cd, model_exe, cases, out, crashes, npmax, variant):
         core.log("R on %d frame-level cases: %.1fs" % (len(rin), time.time() - t0))
     else:
         mres = getattr(ctx, "c03_R", {})
-    hist, perm, wd_items, rg_items, pathdiff = {}, {}, [], [], []
+    hist, perm, wd_items, rg_items, pathdiff, k_items = {}, {}, [], [], [], []
     stricter, sites, stricter_ex, okmut = 0, {}, {}, 0
     for c in cases:
         if c["id"] not in out:
@@ -684,9 +772,12 @@ def evaluate(ctx, cd, model_exe, cases, out, crashes, npmax, variant):
                 pathdiff.append((c, fl))        # decided below: tolerated only for frames that break the window rule
             else:
                 ctx.violation(replay_of(c, flags=fl, result=out[c["id"]][:600], variant=variant),
-                              what="decoder oracle failed on a %s input (%s build): %s" % (c["origin"], variant, fl))
+                              what="decoder oracle failed on a %s input (%s build): %s" % (c["origin"], variant, fl),
+                              key="C03-block-api-empty-insertblock-loses-prefix" if (c["cmd"] == "K" and fl == "EMPTYOP") else None)
         o = c["origin"].split(":")[0]
         hist[o] = hist.get(o, 0) + 1
+        if c["cmd"] == "K" and variant == "asan":
+            k_items.append((c, fd.get("ops", "-"), fd.get("cs", "-")))
         if c["cmd"] != "F":
             one = fd.get("one", fd.get("blk", ""))
             ctx.count((c["cmd"], c["origin"].split("/")[0], one[:2], fd.get("ddict", "")[:8], fd.get("c3", "")[:4]), nontrivial=True)
@@ -761,6 +852,7 @@ def evaluate(ctx, cd, model_exe, cases, out, crashes, npmax, variant):
         ctx.notes["pathdiff_on_window_rule_violations_%s" % variant] = tol
     if variant == "asan":
         check_watchdog(ctx, model_exe, wd_items, npmax)
+        check_continuity(ctx, model_exe, k_items, variant)
         ctx.notes["ring_traces"] = check_ring(ctx, model_exe, rg_items)
         ctx.notes["origins"] = hist
         ctx.notes["permissive_cases"] = perm
@@ -1254,7 +1346,7 @@ def run(ctx):
         ctx.notes["variant_differences_on_permissive_invalid_frames"] = vtol
         for variant in ("noasm", "x1", "x2"):
             vexe = core.build_harness("c03_fuzz", ["c03_fuzz.c"], variant=variant, extra_flags=defs)
-            sub = [c for c in cases if c["cmd"] in ("F", "B")]
+            sub = [c for c in cases if c["cmd"] in ("F", "B", "K")]
             vout, vcr = run_lines(vexe, [case_line(c) for c in sub])
             evaluate(ctx, cd, model_exe, sub, vout, vcr, npmax, variant)
             for c in sub:
